@@ -49,32 +49,35 @@ type CallSpec struct {
 }
 
 type GhostUpdate struct {
-	After string // call[callee#k]
+	After string // call[callee#k], or "return"
 	LHS   *CExpr
 	RHS   *CExpr
 }
 
 type Contract struct {
-	Key       string // canonical function key (types.Func.FullName, or pkg.Func$k for literals)
-	File      string
-	Trusted   bool // contract is assumed, body not verified (external or out of subset)
-	Pure      bool
-	BV        bool
-	Requires  []Clause
-	Ensures   []Clause
-	Assumes   []Clause
-	Modifies  []*CExpr
-	Lets      []LetSpec
-	Loops     map[int]*LoopSpec
-	Calls     map[string]*CallSpec
-	Allocs    map[int]*CExpr // bounded_by
-	MayPanic  map[int]bool
-	Ghosts    []GhostUpdate
-	ElemFacts []ElemFact
-	Inline    bool   // callee is inlined at call sites instead of using the contract
-	Closures  map[int]*Contract
-	Notes     []string
-	Lines     int
+	Key        string // canonical function key (types.Func.FullName, or pkg.Func$k for literals)
+	File       string
+	Trusted    bool // contract is assumed, body not verified (external or out of subset)
+	Pure       bool
+	BV         bool
+	Requires   []Clause
+	Ensures    []Clause
+	Assumes    []Clause
+	Chooses    []Clause // ghost constants of fresh objects chosen at return (assumed)
+	Modifies   []*CExpr
+	Lets       []LetSpec
+	Loops      map[int]*LoopSpec
+	Calls      map[string]*CallSpec
+	Allocs     map[int]*CExpr // bounded_by
+	MayPanic   map[int]bool
+	Ghosts     []GhostUpdate
+	ElemFacts  []ElemFact
+	Inline     bool     // callee is inlined at call sites instead of using the contract
+	Implements []string // keys of interface-method contracts whose ensures this method must satisfy
+	GhostInit  []string // results whose type invariant is established by choice of their fresh ghost state
+	Closures   map[int]*Contract
+	Notes      []string
+	Lines      int
 }
 
 type ElemFact struct {
@@ -86,24 +89,25 @@ type ElemFact struct {
 
 // Vocabulary: ghost fields, uninterpreted functions, defined functions, axioms.
 type GhostField struct {
-	Name string
-	Key  string // "" (the object itself) or a ufun name applied to the object
-	Sort string // Int | Bool
+	Name   string
+	Key    string // "" (the object itself) or a ufun name applied to the object
+	Sort   string // Int | Bool
 	Lo, Hi string // optional range assumed for every read
 }
 
 type Vocab struct {
-	Ghost   map[string]*GhostField
-	UFuns   map[string]int // name -> arity
-	UPreds  map[string]int
-	Defs    []string // raw SMT define-fun lines
-	DefName map[string]int
-	DefBool map[string]bool
-	Axioms  []struct{ Name, SMT string }
+	Ghost    map[string]*GhostField
+	UFuns    map[string]int // name -> arity
+	UPreds   map[string]int
+	Defs     []string // raw SMT define-fun lines
+	DefName  map[string]int
+	DefBool  map[string]bool
+	Axioms   []struct{ Name, SMT string }
+	TypeInvs map[string][]Clause // typeName (without *) -> invariants over `this`
 }
 
 func newVocab() *Vocab {
-	return &Vocab{Ghost: map[string]*GhostField{}, UFuns: map[string]int{}, UPreds: map[string]int{}, DefName: map[string]int{}, DefBool: map[string]bool{}}
+	return &Vocab{Ghost: map[string]*GhostField{}, UFuns: map[string]int{}, UPreds: map[string]int{}, DefName: map[string]int{}, DefBool: map[string]bool{}, TypeInvs: map[string][]Clause{}}
 }
 
 var reLabel = regexp.MustCompile(`^([A-Za-z_][A-Za-z0-9_]*)\s*(\[[A-Z0-9, ]+\])?\s*:\s*(.*)$`)
@@ -259,6 +263,16 @@ func parseContractText(lines []string, file string, pkgPath string, voc *Vocab) 
 			}
 			voc.Defs = append(voc.Defs, strings.TrimSpace(rest[j:]))
 			continue
+		case word == "typeinv":
+			// typeinv <type> label: expr
+			j := strings.IndexAny(rest, " \t")
+			tn := rest[:j]
+			c, err := parseClause(strings.TrimSpace(rest[j:]), file, lineNo)
+			if err != nil {
+				return fail(err)
+			}
+			voc.TypeInvs[tn] = append(voc.TypeInvs[tn], c)
+			continue
 		case word == "axiom":
 			j := strings.Index(rest, ":")
 			voc.Axioms = append(voc.Axioms, struct{ Name, SMT string }{strings.TrimSpace(rest[:j]), strings.TrimSpace(rest[j+1:])})
@@ -282,7 +296,7 @@ func parseContractText(lines []string, file string, pkgPath string, voc *Vocab) 
 			cur.BV = rest == "bv"
 		case "note":
 			cur.Notes = append(cur.Notes, rest)
-		case "requires", "ensures", "assume":
+		case "requires", "ensures", "assume", "choose":
 			c, err := parseClause(rest, file, lineNo)
 			if err != nil {
 				return fail(err)
@@ -292,6 +306,8 @@ func parseContractText(lines []string, file string, pkgPath string, voc *Vocab) 
 				cur.Requires = append(cur.Requires, c)
 			case "ensures":
 				cur.Ensures = append(cur.Ensures, c)
+			case "choose":
+				cur.Chooses = append(cur.Chooses, c)
 			default:
 				cur.Assumes = append(cur.Assumes, c)
 			}
@@ -329,9 +345,23 @@ func parseContractText(lines []string, file string, pkgPath string, voc *Vocab) 
 				return fail(fmt.Errorf("%s:%d: %v", file, lineNo, err))
 			}
 			cur.ElemFacts = append(cur.ElemFacts, ElemFact{Slice: m[1], Idx: m[2], Val: m[3], X: x})
+		case "implements":
+			cur.Implements = append(cur.Implements, rest)
+		case "ghostinit":
+			cur.GhostInit = append(cur.GhostInit, splitArgs(rest)...)
 		case "ghost":
-			// ghost after call[x#k]: lhs := rhs
+			// ghost after call[x#k]: lhs := rhs   |   ghost before return: lhs := rhs
 			m := regexp.MustCompile(`^after\s+call\[([^\]]+)\]\s*:\s*(.*?)\s*:=\s*(.*)$`).FindStringSubmatch(rest)
+			if m == nil {
+				if m2 := regexp.MustCompile(`^before\s+return\s*:\s*(.*?)\s*:=\s*(.*)$`).FindStringSubmatch(rest); m2 != nil {
+					m = []string{m2[0], "return", m2[1], m2[2]}
+				}
+			}
+			if m == nil {
+				if m2 := regexp.MustCompile(`^before\s+call\[([^\]]+)\]\s*:\s*(.*?)\s*:=\s*(.*)$`).FindStringSubmatch(rest); m2 != nil {
+					m = []string{m2[0], "before:" + m2[1], m2[2], m2[3]}
+				}
+			}
 			if m == nil {
 				return fail(fmt.Errorf("%s:%d: bad ghost clause", file, lineNo))
 			}
